@@ -77,7 +77,7 @@ CHECKS.update({
    tech='contract-based deductive verification: effect contracts (Det(seed)) checked per call site over the AST of the real source with signature resolution on the imported objects; dynamic replay of failures; run-time validity contracts as bounded stand-in'),
  'C15': dict(level='other', ref='DESIGN.md §7 C15',
    text='Proved (exact polynomial / trigonometric-polynomial identities on the real code): su2_to_so3 is a homomorphism with R R^T = |U|^4 I, det = |U|^6, R(-U)=R(U); angle_to_su2 in SU(2); angle_to_so3 orthogonal with det 1 and equal to su2_to_so3 o angle_to_su2; get_su2_irrep built from angles is unitary for j2<=3 (5 thorough) and equals angle_to_su2 for j2=1. '
-        'Bounded: angle extraction round trips on the quantifier grid including beta in {0,pi} exactly and mixed batches, D(U1U2)=D(U1)D(U2) on matrix input, su(2) commutators, Clebsch-Gordan orthogonality/intertwining.',
+        'Bounded: angle extraction round trips on the quantifier grid including beta in {0,pi} exactly, gamma over both sheets (0,4pi), batches built to contain both poles and generic rotations; D(matrix) == D(angles) and D(U1U2)=D(U1)D(U2) on structured rotations (poles, z-rotations beyond 2pi) and random matrices, j2<=10; su(2) commutators, Clebsch-Gordan orthogonality/intertwining.',
    note=ALG_NOTE + ' arccos/arctan branch logic with thresholds is outside deduction: bounded.' + BOUNDED_NOTE,
    tech=TECH + 'trigonometric normal form (half-angle base pairs, c^2+s^2=1); run-time contracts on the Euler-angle grid as bounded stand-in'),
  'C18': dict(level='other', ref='DESIGN.md §7 C18',
@@ -125,11 +125,13 @@ CHECKS.update({
         'irrep / partition / Young-diagram / standard-tableau counts equal the pentagonal recurrence, an independent partition generator and the hook-length formula (N <= 60 / 12 / 8 (10)), totient and primality vs a sieve.',
    note='The inputs are only sizes and every object is a concrete finite table: no value-symbolic contract applies; the contracts are evaluated on the complete finite domain. Trusted: NumPy integer arithmetic, float64 with tolerance 1e-7 for the irreducible blocks, the independent oracles in contracts/c14.py.',
    tech='exhaustive run-time evaluation of the contracts over the finite quantifier (bounded stand-in, exhaustive)'),
- 'C20': dict(level='exploration', ref='DESIGN.md §7 C20',
-   text='Bounded: get_matrix_orthogonal_basis on 9 generator classes x dims 2..5 x dependent generators (kind label, structure, Gram = c I, span equality over the stated field, complement orthogonal / independent / structured, dimension count); has_rank_hierarchical_method (r=2,3; k=1..3; real / complex) and is_ABC_completely_entangled_subspace (k=1..3) never certify a subspace with a planted low-rank element / product vector handed over as an orthonormal basis; '
-        'detect_real_matrix_subspace_rank_one never answers "no rank-one element" on a planted one; every point of get_matrix_numerical_range attains the support function in its direction (sizes 2..8). Enumerated core: the (anti)symmetric projector tables of the hierarchy.',
-   note=EXPL_NOTE + ' The certificates are one-sided: only soundness is checked, with a reachability count showing the certificate is actually issued on generic subspaces.',
-   tech='run-time contract evaluation on seeded structured / planted instances (bounded stand-in); exhaustive enumeration of the projector tables'),
+ 'C20': dict(level='other', ref='DESIGN.md §7 C20, §10',
+   text='Proved (exact polynomial identities over complex indeterminates on the REAL has_rank_hierarchical_method / is_ABC_completely_entangled_subspace, shapes (dimA,dimB,N,r,k) up to (3,3,3,2,1), (2,2,2,1,3), tripartite up to (2,2,3), k<=2 (3 thorough)): the matrix handed to LU is rows.rows^dagger; '
+        'the row of a combination M = sum c_i A_i is a weighted sum of the rows with non-zero constant weights read off the code; the row of a generator of rank <= r (resp. a product vector) vanishes identically; hence a subspace containing a low-rank element / product vector makes the Gram matrix singular '
+        'and the certificate cannot be issued in exact arithmetic. Bounded: get_matrix_orthogonal_basis on 9 generator classes x dims 2..5 (kind label, structure, Gram = c I, span equality, complement, dimension count); planted instances through the floating-point LU (r=2,3; k=1..3; real / complex); '
+        'detect_real_matrix_subspace_rank_one on planted rank-one elements; every point of get_matrix_numerical_range attains the support function (sizes 2..8); the (anti)symmetric projector tables (enumerated).',
+   note=EXPL_NOTE + ' Meta-steps of the soundness argument (trusted): dependent rows => singular Gram matrix => a zero pivot in exact LU; floats are reals. The decomposition, the real rank-one detector (eigenvalue bound + scalar minimisation) and the numerical range are bounded only.',
+   tech=TECH + 'recorder stubs on opt_einsum.contract / scipy.linalg.lu to obtain the rows the real code builds; run-time contract evaluation on seeded structured / planted instances as bounded stand-in'),
 })
 PENDING = 'contracts for this property are not built yet in this revision (work in progress, see DESIGN.md §7/§10)'
 ALL = [f'C{i:02d}' for i in range(1, 21)]
